@@ -747,9 +747,8 @@ inline constexpr void Conversion<Unit::Energy, Unit::Energy::BritishThermalUnit>
 }
 
 template <typename NumericType>
-inline const std::map<Unit::Energy,
-                      std::function<void(NumericType* values, const std::size_t size)>>
-    MapOfConversionsFromStandard<Unit::Energy, NumericType>{
+inline constexpr auto MapOfConversionsFromStandard<Unit::Energy, NumericType>{
+  MakeConversionTable<Unit::Energy, NumericType>({
       {Unit::Energy::Joule,
        Conversions<Unit::Energy, Unit::Energy::Joule>::FromStandard<NumericType>             },
       {Unit::Energy::Millijoule,
@@ -814,12 +813,12 @@ inline const std::map<Unit::Energy,
        Conversions<Unit::Energy, Unit::Energy::Gigaelectronvolt>::FromStandard<NumericType>  },
       {Unit::Energy::BritishThermalUnit,
        Conversions<Unit::Energy, Unit::Energy::BritishThermalUnit>::FromStandard<NumericType>},
+})
 };
 
 template <typename NumericType>
-inline const std::map<Unit::Energy,
-                      std::function<void(NumericType* const values, const std::size_t size)>>
-    MapOfConversionsToStandard<Unit::Energy, NumericType>{
+inline constexpr auto MapOfConversionsToStandard<Unit::Energy, NumericType>{
+  MakeConversionTable<Unit::Energy, NumericType>({
       {Unit::Energy::Joule,
        Conversions<Unit::Energy, Unit::Energy::Joule>::ToStandard<NumericType>             },
       {Unit::Energy::Millijoule,
@@ -884,6 +883,7 @@ inline const std::map<Unit::Energy,
        Conversions<Unit::Energy, Unit::Energy::Gigaelectronvolt>::ToStandard<NumericType>  },
       {Unit::Energy::BritishThermalUnit,
        Conversions<Unit::Energy, Unit::Energy::BritishThermalUnit>::ToStandard<NumericType>},
+})
 };
 
 }  // namespace Internal
